@@ -91,6 +91,8 @@ pub struct Scenario {
     pub in_pre_start: Vec<usize>,
     pub clients: Vec<Vec<COp>>,
     pub post_stop_yield: bool,
+    /// the target is created with spawn_linked_instant: clients get its reference while it is still Unstarted
+    pub instant: bool,
     pub horizon: u64,
 }
 
@@ -289,7 +291,7 @@ async fn client(sc: Arc<Scenario>, w: W, ops: Vec<COp>) {
 
 /// labels kept whoever emitted them
 const KEEP_OBS: &[&str] = &[
-    "obs.create", "obs.abort", "obs.finished", "obs.join", "obs.stop", "obs.kill", "obs.drain", "obs.send", "obs.handled", "obs.busy",
+    "obs.instant", "obs.create", "obs.abort", "obs.finished", "obs.join", "obs.stop", "obs.kill", "obs.drain", "obs.send", "obs.handled", "obs.busy",
     "obs.busy_end", "obs.fail", "obs.post_stop", "obs.sup",
 ];
 /// internal points kept when they concern the target actor
@@ -311,7 +313,15 @@ pub fn one_run(sc: &Scenario, ex: &mut Explorer) -> (Vec<Value>, Value, bool) {
             let _ = ractor::concurrency::spawn_named(Some("boot"), async move {
                 let (sup, _) = Sup::spawn(None, Sup, ()).await.expect("sup");
                 w2.lock().unwrap().sup_pid = sup.get_id().pid();
-                let (tg, _) = Probe::spawn_linked(None, Probe { sc: sc2.clone(), w: w2.clone() }, (), sup.get_cell()).await.expect("probe");
+                let probe = Probe { sc: sc2.clone(), w: w2.clone() };
+                let tg = if sc2.instant {
+                    let (tg, _start) = ractor::ActorRuntime::<Probe>::spawn_linked_instant(None, probe, (), sup.get_cell()).expect("probe");
+                    w2.lock().unwrap().tg_pid = tg.get_id().pid();
+                    obs("obs.instant", "tg", tg.get_status() as i64, vec![]);
+                    tg
+                } else {
+                    Probe::spawn_linked(None, probe, (), sup.get_cell()).await.expect("probe").0
+                };
                 w2.lock().unwrap().target = Some(tg);
                 for (ci, ops) in sc2.clients.iter().enumerate() {
                     let _ = ractor::concurrency::spawn_named(Some(&format!("client{ci}")), client(sc2.clone(), w2.clone(), ops.clone()));
@@ -356,6 +366,13 @@ pub fn one_run(sc: &Scenario, ex: &mut Explorer) -> (Vec<Value>, Value, bool) {
                 continue;
             }
             o.insert("x".into(), json!("tg"));
+        } else if a == "status.set" {
+            if e.obj != g.tg_pid || e.d != 1 || !sc.instant {
+                continue;
+            }
+            o.insert("a".into(), json!("status.starting"));
+            o.insert("x".into(), json!("tg"));
+            o.remove("prev");
         } else if a == "timer.start" || a == "timer.fire" {
             let id: u64 = e.who.strip_prefix('k').and_then(|s| s.parse().ok()).unwrap_or(0);
             match task_timer.get(&id) {
@@ -408,6 +425,7 @@ pub fn micro_scenarios() -> Vec<Scenario> {
             in_pre_start: vec![],
             clients: vec![vec![Create(0), Create(1), Create(2), Join(0), Join(1), Join(2)], vec![Sleep(5), Stop]],
             post_stop_yield: true,
+            instant: false,
             horizon: 17,
         },
         // abort at the instant of expiry (before / after the firing poll), and one ms either side
@@ -418,6 +436,7 @@ pub fn micro_scenarios() -> Vec<Scenario> {
                 vec![Create(0), Create(1), Create(2), Create(3), Sleep(4), Abort(0), Sleep(1), Abort(1), Abort(3), Sleep(1), Abort(2), Join(0), Join(1), Join(2), Join(3)],
             ],
             post_stop_yield: false,
+            instant: false,
             horizon: 13,
         },
         // kill at the instant of expiry; exit_after against send_after at the same instant
@@ -426,6 +445,7 @@ pub fn micro_scenarios() -> Vec<Scenario> {
             in_pre_start: vec![],
             clients: vec![vec![Create(0), Create(1), Sleep(3), Create(2), Join(0), Join(2)], vec![Sleep(5), Kill, Finished(1)]],
             post_stop_yield: false,
+            instant: false,
             horizon: 9,
         },
         // zero and one ms periods, kill_after
@@ -434,6 +454,7 @@ pub fn micro_scenarios() -> Vec<Scenario> {
             in_pre_start: vec![],
             clients: vec![vec![Create(0), Create(1), Create(2), Create(3), Join(0), Join(3), Join(1)], vec![Sleep(2), Create(4), Join(4)]],
             post_stop_yield: true,
+            instant: false,
             horizon: 8,
         },
         // drain at expiry, a failing handler at expiry
@@ -442,6 +463,7 @@ pub fn micro_scenarios() -> Vec<Scenario> {
             in_pre_start: vec![],
             clients: vec![vec![Create(0), Create(1), Create(2), Join(0), Join(1), Join(2)], vec![Sleep(5), Drain]],
             post_stop_yield: false,
+            instant: false,
             horizon: 14,
         },
         Scenario {
@@ -449,6 +471,7 @@ pub fn micro_scenarios() -> Vec<Scenario> {
             in_pre_start: vec![],
             clients: vec![vec![Create(0), Create(1), Create(2), Join(0), Join(1), Join(2)], vec![Sleep(5), SendFail]],
             post_stop_yield: false,
+            instant: false,
             horizon: 14,
         },
         // a handler that sleeps: the stop is pending but the target is still Running, the interval keeps enqueueing
@@ -457,6 +480,7 @@ pub fn micro_scenarios() -> Vec<Scenario> {
             in_pre_start: vec![],
             clients: vec![vec![SendBusy(10), Create(0), Create(1), Create(2), Join(1), Join(0)], vec![Sleep(9), Finished(0), Sleep(4), Finished(0)]],
             post_stop_yield: false,
+            instant: false,
             horizon: 20,
         },
         // timers the actor arms on itself in pre_start
@@ -465,6 +489,7 @@ pub fn micro_scenarios() -> Vec<Scenario> {
             in_pre_start: vec![0, 1, 2, 3],
             clients: vec![vec![Sleep(10), Finished(0), Finished(2), Finished(3)]],
             post_stop_yield: true,
+            instant: false,
             horizon: 18,
         },
     ]
@@ -479,6 +504,7 @@ pub fn exhaustive_scenarios() -> Vec<Scenario> {
             in_pre_start: vec![0, 1, 2],
             clients: vec![],
             post_stop_yield: false,
+            instant: false,
             horizon: 7,
         },
         Scenario {
@@ -486,9 +512,80 @@ pub fn exhaustive_scenarios() -> Vec<Scenario> {
             in_pre_start: vec![0, 1, 2],
             clients: vec![],
             post_stop_yield: false,
+            instant: false,
             horizon: 4,
         },
     ]
+}
+
+/// Timers armed on a target that was spawned with spawn_linked_instant and may still be Unstarted
+pub fn instant_scenarios() -> Vec<Scenario> {
+    use COp::*;
+    use Kind as K;
+    vec![
+        Scenario {
+            timers: vec![t(K::Interval, 5, Via::Ref), t(K::After, 5, Via::Cell)],
+            in_pre_start: vec![],
+            clients: vec![vec![Create(0), Create(1), Sleep(11), Finished(0), Stop]],
+            post_stop_yield: false,
+            instant: true,
+            horizon: 19,
+        },
+        Scenario {
+            timers: vec![t(K::Interval, 1, Via::Derived), t(K::Interval, 1, Via::Cell), t(K::Exit, 3, Via::Ref)],
+            in_pre_start: vec![],
+            clients: vec![vec![Create(0), Create(2)], vec![Create(1), Sleep(2), Finished(0), Finished(1)]],
+            post_stop_yield: false,
+            instant: true,
+            horizon: 6,
+        },
+    ]
+}
+
+/// `timer-instant`: the instant-spawn scenarios only (DFS capped + random orders)
+pub fn batch_instant(out: &str, tier: &str, seed: u64) -> Value {
+    let mut b = Batch::new(Some(out));
+    let (dfs_cap, nrand) = if tier == "thorough" { (4000usize, 4000usize) } else { (600usize, 400usize) };
+    let mut nontrivial = std::collections::HashSet::new();
+    let mut bad_runs = 0u64;
+    let mut died = 0u64;
+    for sc in instant_scenarios() {
+        for mode in 0..2 {
+            let mut ex = if mode == 0 { Explorer::new(Mode::Dfs { preempt_bound: Some(2) }, seed) } else { Explorer::new(Mode::Random, seed ^ 0x696e7374) };
+            let mut n = 0;
+            loop {
+                ex.begin_run();
+                let (evs, meta, bad) = one_run(&sc, &mut ex);
+                // an interval task that finished although it never fired and its target was never stopped before
+                let mut started: std::collections::HashSet<String> = Default::default();
+                let mut fired: std::collections::HashSet<String> = Default::default();
+                for e in &evs {
+                    let (a, x, tt) = (e["a"].as_str().unwrap_or(""), e["x"].as_str().unwrap_or("").to_string(), e["t"].as_u64().unwrap_or(0));
+                    if a == "timer.start" {
+                        started.insert(x);
+                    } else if a == "timer.fire" {
+                        fired.insert(x);
+                    } else if a == "obs.timer_done" && tt == 0 && started.contains(&x) && !fired.contains(&x) {
+                        died += 1;
+                    }
+                }
+                let h = b.run(meta, &evs);
+                if ex.nontrivial {
+                    nontrivial.insert(h);
+                }
+                if bad {
+                    bad_runs += 1;
+                }
+                n += 1;
+                if (mode == 0 && !ex.end_run()) || n >= if mode == 0 { dfs_cap } else { nrand } {
+                    break;
+                }
+            }
+        }
+    }
+    b.finish();
+    json!({"family": "timer-instant", "runs": b.runs, "events": b.events, "distinct": b.hashes.len(), "distinct_nontrivial": nontrivial.len(),
+           "bad_runs": bad_runs, "timers_finished_at_t0_without_firing": died, "samples": b.samples})
 }
 
 pub fn rand_scenario(rng: &mut Rng) -> Scenario {
@@ -581,7 +678,7 @@ pub fn rand_scenario(rng: &mut Rng) -> Scenario {
         clients.push(c);
     }
     let horizon = if fast { 13 } else { 133 };
-    Scenario { timers, in_pre_start, clients, post_stop_yield: rng.chance(1, 2), horizon }
+    Scenario { timers, in_pre_start, clients, post_stop_yield: rng.chance(1, 2), instant: false, horizon }
 }
 
 pub fn batch(out: &str, tier: &str, seed: u64) -> Value {
@@ -676,6 +773,7 @@ pub fn dispatch(cmd: &str, a: &std::collections::HashMap<String, String>) -> Opt
     let (out, tier, seed) = crate::common(a);
     match cmd {
         "timer" => Some(batch(&out, &tier, seed)),
+        "timer-instant" => Some(batch_instant(&out, &tier, seed)),
         _ => None,
     }
 }
